@@ -3,7 +3,8 @@
 Proof side: coq/Properties_C09.v (dispatch over the generated registry, guard models of the listed operators).
 Correspondence: boundary-value pools through the real operators (forked children of the harness h_ops; plain +
 _GLIBCXX_ASSERTIONS in the quick tier, ASan+UBSan+float-cast-overflow in the thorough tier) against the extracted
-guard models (ocaml/ops_driver.ml).  Exploration (NOT proof, counted separately): a registry-wide sweep of every
+guard models (ocaml/ops_driver.ml; coq/Ops/Guards.v and the second list coq/Ops/Guards2.v).  Two implementation-only families without a model:
+numeric structures (matrices / vectors against float32 arithmetic) and aliased operands (`_a op _a` against the same call on a copy).  Exploration (NOT proof, counted separately): a registry-wide sweep of every
 registered signature with type-correct arguments from per-type value pools; a sweep case only has to end without
 crash / escaping exception / hang / allocation blow-up, and its "unknown type combination" diagnostic has to agree
 with the dispatch model."""
@@ -186,6 +187,13 @@ def render_value(render, res, alloc):
         return '"%s"' % ("%.*f" % (int(f[1]), 1.25))
     if r == "sorted":
         return ("SORTED", render)
+    if r == "shape":
+        return ("SHAPE", int(f[1]), int(f[2])) if f[0] == "shape" else "nil"
+    if r == "nil_or_value":
+        return "nil" if f[0] == "nil" else ("NOTNIL",)
+    if r == "by_res":
+        # expected printed value per result descriptor of the model ("*" = any other descriptor; absent = not compared)
+        return render["map"].get(res, render["map"].get(f[0], render["map"].get("*")))
     raise ValueError(render)
 
 
@@ -470,6 +478,190 @@ def gen_cases(rng, thorough):
     return cs
 
 
+# ------------------------------------------------------------------------------------------------ second list of guard models
+CFG_CAR = "class CfgVehicles { class Car { transportSoldier = 3; }; };"
+LIVE_OBJ = Vl('("Car" createVehicle [0,0,0])', "O2", None)
+
+
+def vcode(n):
+    """a CODE value that leaves the number n"""
+    return Vl("{%d}" % n, "O1", str(n))
+
+
+def gen_cases2(rng, thorough):
+    """operators of coq/Ops/Guards2.v: matrices, vectors, IF then ARRAY, private, getVariable / setVariable with an array,
+    markers, CONFIG select SCALAR, callExtension with an argument array"""
+    cs = []
+    odd = [vstr("a"), vbool(True), varr([]), CODE, OBJNULL, vnum(NAN)]
+
+    # ---- matrixTranspose / matrixMultiply
+    def mat(r, c, base=1):
+        return [[vint(base + i * c + j) for j in range(c)] for i in range(r)]
+
+    def mv(rows):
+        return varr([varr(r) if isinstance(r, list) else r for r in rows])
+
+    good = [mat(1, 1), mat(1, 3), mat(3, 1), mat(2, 3), mat(3, 2), mat(3, 3), mat(5, 4), mat(1, 40), mat(40, 1), mat(2, 2, -3)]
+    bad = [[], [[]], [[], []], [vint(1)], [[vint(1)], vint(2)], [vint(2), [vint(1)]], [[vint(1), vint(2)], [vint(3)]], [[vint(1)], [vint(2), vint(3)]],
+           [[vint(1), vint(2)], [vint(3), vint(4), vint(5)]], [[vint(1), vstr("a")]], [[vstr("a")]], [[vint(1)], [vbool(True)]], [[vint(1)], [varr([vint(1)])]],
+           [[vint(1), vint(2)], []], [vstr("a")], [[vint(1), vint(2)], vstr("x")], [CODE], [[CODE]], [[vint(1)], [OBJNULL]], [[vint(1), vint(2)], OBJNULL],
+           [[vnum(NAN), vnum(INF)]], [[varr([])]], [varr([]), [vint(1)]]]
+    mats = [m for m in good] + bad
+    for _ in range(300 if thorough else 40):
+        r, c = rng.choice([1, 2, 3, 4]), rng.choice([1, 2, 3, 4])
+        m = mat(r, c)
+        how = rng.choice(["cell", "row", "short", "long", "drop"])
+        i, j = rng.randrange(r), rng.randrange(c)
+        if how == "cell":
+            m[i][j] = rng.choice(odd)
+        elif how == "row":
+            m[i] = rng.choice(odd)
+        elif how == "short":
+            m[i] = m[i][:-1]
+        elif how == "long":
+            m[i] = m[i] + [vint(0)]
+        else:
+            del m[i]
+        mats.append(m)
+    for m in mats:
+        v = mv(m)
+        cs.append(Case("matrixTranspose", "matrixTranspose %s" % v.sqf, ["matrix_transpose", v.tok], {"r": "shape"}))
+    pairs = [(a, b) for a in good[:7] for b in good[:7]] + [(a, b) for a in bad for b in (good[0], good[3])] + [(b, a) for a in bad for b in (good[0], good[4])]
+    pairs += [(a, b) for a in mats[len(good) + len(bad):] for b in (good[3], good[4])][:60]
+    for a, b in pairs:
+        va, vb = mv(a), mv(b)
+        cs.append(Case("matrixMultiply", "%s matrixMultiply %s" % (va.sqf, vb.sqf), ["matrix_multiply", va.tok, vb.tok], {"r": "shape"}))
+
+    # ---- the vector operators
+    vecs = [[vint(1), vint(2), vint(3)], [], [vint(1)], [vint(1), vint(2)], [vint(1), vint(2), vint(3), vint(4)], [vint(1), vstr("a"), vint(3)],
+            [vstr("a"), vstr("b"), vstr("c")], [vint(1), vint(2), OBJNULL], [vnum(NAN), vnum(INF), vnum(NINF)], [varr([vint(1)]), vint(2), vint(3)],
+            [vbool(True), vint(2), vint(3)], [vint(0), vint(0), vint(0)], [vnum(fin(1e20, "1e20")), vnum(fin(-1e30, "-1e30")), vint(5)], [CODE, CODE, CODE]]
+    binary = [("vectorAdd", "at"), ("vectorDiff", "at"), ("vectorCrossProduct", "at"), ("vectorCos", "conv"), ("vectorDistance", "conv"),
+              ("vectorDistanceSqr", "conv"), ("vectorDotProduct", "conv")]
+    allpairs = [(a, b) for a in vecs for b in vecs]
+    for op, kind in binary:
+        for a, b in (allpairs if thorough else rng.sample(allpairs, 45) + [(vecs[0], vecs[0]), (vecs[0], vecs[3]), (vecs[3], vecs[0])]):
+            va, vb = varr(a), varr(b)
+            cs.append(Case("vector", "%s %s %s" % (va.sqf, op, vb.sqf), ["vec3_binary", kind, va.tok, vb.tok], {"r": "nil_or_value"}))
+    for a in vecs:
+        va = varr(a)
+        for op, kind in (("vectorMagnitude", "conv"), ("vectorMagnitudeSqr", "conv"), ("vectorNormalized", "at")):
+            cs.append(Case("vector", "%s %s" % (op, va.sqf), ["vec3_unary", kind, va.tok], {"r": "nil_or_value"}))
+        for f in (fin(2), NAN, fin(0)):
+            cs.append(Case("vector", "%s vectorMultiply %s" % (va.sqf, f.sqf), ["vec3_unary", "at", va.tok], {"r": "nil_or_value"}))
+
+    # ---- IF then ARRAY
+    els = [vcode(10), vcode(20), vint(1), vstr("s"), varr([]), OBJNULL, vbool(True)]
+    arrs = [[a, b] for a in els for b in els] + [[], [vcode(10)], [vcode(10), vcode(20), vcode(30)], [vint(1)], [vint(1), vint(2), vint(3)]]
+    for a in arrs:
+        for cond in (True, False):
+            v = varr(a)
+            cs.append(Case("if-then-array", "if %s then %s" % ("true" if cond else "false", v.sqf), ["then_if_array", "1" if cond else "0", v.tok],
+                           {"r": "elem", "prints": [x.prt if x.prt is not None else "?" for x in a]}))
+
+    # ---- private ARRAY
+    for a in [[], [vstr("_a")], [vstr("_a"), vstr("_b")], [vstr("_a"), vint(1)], [vint(1), vint(2)], [varr([]), vstr("_a"), CODE], [vstr("_a")] * 30,
+              [OBJNULL], [vstr("_a"), vstr("_a")], [varr([vstr("_a")])], [vbool(False), vstr("_b"), vnum(NAN)]]:
+        v = varr(a)
+        cs.append(Case("private", "private %s" % v.sqf, ["private_array", v.tok], {"r": "const", "v": "nil"}))
+
+    # ---- NAMESPACE getVariable ARRAY / setVariable ARRAY
+    heads = [vstr("vq"), vstr("vz"), vint(1), varr([]), CODE, OBJNULL, vbool(True)]
+    tails = [vint(5), vstr("d"), varr([vint(1), vint(2)]), vbool(False)]
+    nsarrs = [[h, t] for h in heads for t in tails] + [[], [vstr("vq")], [vstr("vz")], [vint(1)], [vstr("vq"), vint(5), vint(6)], [vstr("vz"), vint(5), vint(6)], [vint(1), vint(2), vint(3)]]
+    for a in nsarrs:
+        v = varr(a)
+        for ns in ("missionNamespace", "uiNamespace"):
+            found = ns == "missionNamespace" and len(a) >= 1 and a[0].tok == vstr("vq").tok
+            mp = {"nil": "nil", "other": "7"}
+            if len(a) == 2:
+                mp["elem:1"] = a[1].prt
+            cs.append(Case("getVariable-ns", "vq = 7; %s getVariable %s" % (ns, v.sqf), ["ns_getvar", "1" if found else "0", v.tok], {"r": "by_res", "map": mp}))
+        mp = {"nil": "nil"}
+        if len(a) == 2:
+            mp["stored:1:2"] = a[1].prt
+        name = unquote(a[0].prt) if a and a[0].tok.startswith("S") else "vq"
+        cs.append(Case("setVariable-ns", "missionNamespace setVariable %s; %s" % (v.sqf, name), ["ns_setvar", v.tok], {"r": "by_res", "map": mp}))
+
+    # ---- markers
+    mk = 'createMarker ["m", %s]; ' % LIVE_OBJ.sqf
+    posarrs = vecs + [[vint(4), vint(5)], [vint(4), vstr("a")], [vstr("a"), vint(5)], [vint(4), vint(5), vstr("z")], [vint(4), vint(5), vint(6), vint(7)],
+                      [vnum(NAN), vnum(INF)], [varr([]), varr([])]]
+
+    def nums(a):
+        return [x.prt for x in a]
+
+    for a in posarrs:
+        v = varr(a)
+        p3 = "[" + ",".join((nums(a) + ["0"])[:3]) + "]" if len(a) >= 2 and all(x.prt is not None for x in a) else None
+        cs.append(Case("setMarkerPos", mk + '"m" setMarkerPos %s; getMarkerPos "m"' % v.sqf, ["set_marker_pos", "1", v.tok],
+                       {"r": "by_res", "map": {"stored": norm_print(p3) if p3 else None}}, config=CFG_CAR))
+        cs.append(Case("setMarkerPos", '"m" setMarkerPos %s' % v.sqf, ["set_marker_pos", "0", v.tok], {"r": "const", "v": "nil"}))
+        p2 = "[" + ",".join(nums(a)[:2]) + "]" if len(a) >= 2 and all(x.prt is not None for x in a) else None
+        cs.append(Case("setMarkerSize", mk + '"m" setMarkerSize %s; getMarkerSize "m"' % v.sqf, ["set_marker_size", "1", v.tok],
+                       {"r": "by_res", "map": {"stored": norm_print(p2) if p2 else None}}, config=CFG_CAR))
+        cs.append(Case("setMarkerSize", '"m" setMarkerSizeLocal %s' % v.sqf, ["set_marker_size", "0", v.tok], {"r": "const", "v": "nil"}))
+    cm = [[vstr("m"), LIVE_OBJ], [vstr("m"), OBJNULL], [vstr("m"), varr([vint(1), vint(2)])], [vstr("m"), varr([vint(1), vint(2), vint(3)])],
+          [vstr("m"), varr([vint(1)])], [vstr("m"), varr([])], [vstr("m"), varr([vint(1), vint(2), vint(3), vint(4)])], [vstr("m"), varr([vstr("a"), vint(2)])],
+          [vstr("m"), varr([vint(1), vint(2), OBJNULL])], [vstr("m"), vint(1)], [vstr("m")], [], [vstr("m"), LIVE_OBJ, vint(1)], [vint(1), LIVE_OBJ],
+          [vint(1), varr([vint(1), vint(2)])], [LIVE_OBJ, vstr("m")], [vstr("m"), vstr("s")], [varr([]), varr([])], [OBJNULL, OBJNULL], [vstr(""), LIVE_OBJ],
+          [vstr("m"), varr([vnum(NAN), vnum(INF)])], [CODE, CODE, CODE]]
+    for a in cm:
+        v = varr(a)
+        named_m = bool(a) and a[0].tok == vstr("m").tok
+        null = len(a) == 2 and a[1] is OBJNULL
+        mp = {"nil": "nil", "other": '""'}
+        if a and a[0].tok.startswith("S"):
+            mp["stored"] = a[0].prt
+        cs.append(Case("createMarker", "createMarker %s" % v.sqf, ["create_marker", "1" if null else "0", "0", v.tok], {"r": "by_res", "map": mp}, config=CFG_CAR))
+        cs.append(Case("createMarker", mk + "createMarker %s" % v.sqf, ["create_marker", "1" if null else "0", "1" if named_m else "0", v.tok],
+                       {"r": "by_res", "map": mp}, config=CFG_CAR))
+
+    # ---- CONFIG select SCALAR
+    sel_idx = [fin(-2147483904), fin(-1), fin(-0.5), fin(0), fin(0.5), fin(0.99), fin(1), fin(1.5), fin(2), fin(2.9), fin(3), fin(4), fin(5), fin(6), fin(7),
+               fin(2147483520), fin(2147483648), fin(1e10, "1e10"), fin(1e20, "1e20"), INF, NINF, NAN]
+    for _ in range(60 if thorough else 8):
+        k = rng.choice([0, 1, 2, 3, 6])
+        names = ["c%d" % i for i in range(k)]
+        body, children = [], []
+        for i, nm in enumerate(names):
+            body.append("class %s { v = %d; };" % (nm, i))
+            children.append(i + 1)
+        idn = {"-1": ""}
+        for i, nm in enumerate(names):
+            idn[str(i + 1)] = nm
+            if rng.random() < 0.4:
+                body.append("delete %s;" % nm)
+                children[i] = -1
+                if rng.random() < 0.4:
+                    body.append("class %s { w = 1; };" % nm)      # declared again after the delete: a new slot at the end
+                    children.append(100 + i)
+                    idn[str(100 + i)] = nm
+        cfg = "class A { %s }; class E {};" % " ".join(body)
+        ids = ",".join(str(c) for c in children) if children else "-"
+        for f in sel_idx:
+            cs.append(Case("config-select", '(configFile >> "A") select %s' % f.sqf, ["cfg_select", "0", ids, f.tok],
+                           {"r": "by_res", "map": dict([("num:" + i, n) for i, n in idn.items()] + [("nil", "")])}, config=cfg, defect="float-int-casts"))
+    for f in sel_idx[:8] + [NAN, INF]:
+        cs.append(Case("config-select", "configNull select %s" % f.sqf, ["cfg_select", "1", "-", f.tok], {"r": "none"}, defect="float-int-casts"))
+        cs.append(Case("config-select", '(configFile >> "E") select %s' % f.sqf, ["cfg_select", "0", "-", f.tok], {"r": "by_res", "map": {"nil": ""}},
+                       config="class E {};", defect="float-int-casts"))
+
+    # ---- STRING callExtension ARRAY (no such library: the call ends where the library would be loaded)
+    ce = [[vstr("f"), varr([vint(1), vint(2)])], [vstr("f")], [], [vstr("f"), vint(1)], [vstr("f"), vstr("s")], [vstr("f"), vbool(True)], [vstr("f"), varr([CODE])],
+          [vstr("f"), CODE], [vstr("f"), OBJNULL], [vstr("f"), varr([vint(1), OBJNULL, vint(2)])], [vint(1), varr([vint(1)])], [varr([]), varr([])], [CODE, CODE],
+          [vstr("f"), varr([vint(1)]), vint(3)], [vstr("f"), CODE, vint(3)], [vint(1), vint(2), vint(3)], [vstr("f"), varr([vint(0)] * 2048)],
+          [vstr("f"), varr([vint(0)] * 2049)], [vstr("f"), varr([vint(0)] * 2049), vint(1)], [vstr("f"), varr([CODE] * 2049)],
+          [vstr("f"), varr([varr([vint(1), vint(2)]), vstr("a"), vbool(True), vnum(NAN)])], [vstr("f"), varr([])], [vstr(""), varr([])]]
+    for a in ce:
+        v = varr(a)
+        for lib, hp in (("verif_no_such_extension", "0"), ("no/such", "1"), ("no\\such", "1")):
+            cs.append(Case("callExtension", '"%s" callExtension %s' % (lib, v.sqf), ["callext_args", hp, "0", v.tok],
+                           {"r": "by_res", "map": {"nil": "nil", "other": '""', "num:201": '["",0,201]', "num:101": '["",0,101]', "num:102": '["",0,102]',
+                                                   "num:501": '["",0,501]'}}))
+    return cs
+
+
 # ------------------------------------------------------------------------------------------------ comparison
 CRASHY = ("CRASH", "TIMEOUT", "OOM", "EXCEPTION", "EXIT", "HARNESS-LOST", "HARNESS")
 
@@ -588,6 +780,18 @@ def compare(case, impl, model):
         c = unquote(got) if got is not None else None
         if c is None or len(c) != want[1]:
             return ("format wrote %s, the model counts %d bytes" % (got if got is None else repr(got[:80]), want[1]), False)
+        return None
+    if isinstance(want, tuple) and want[0] == "SHAPE":
+        rows = parse_print_array(got or "")
+        if rows is None:
+            return ("value differs: implementation %s, the model builds a %d x %d array" % (repr(got)[:120], want[1], want[2]), False)
+        cols = [parse_print_array(x) for x in rows]
+        if len(rows) != want[1] or any(c is None or len(c) != want[2] for c in cols):
+            return ("value differs: implementation %s, the model builds a %d x %d array" % (repr(got)[:120], want[1], want[2]), False)
+        return None
+    if isinstance(want, tuple) and want[0] == "NOTNIL":
+        if got is None or got == "nil":
+            return ("value differs: implementation %s, the model answers with a value" % repr(got), False)
         return None
     if isinstance(want, tuple) and want[0] == "SORTED":
         r = want[1]
@@ -1190,6 +1394,138 @@ def run_numarr(run, himpl, ncases):
                    "values_that_are_no_number": [na_show(b) for b in NA_BAD]}
 
 
+# ------------------------------------------------------------------------------------------------ aliased operands
+# Operators whose two operands - or an operand and an element of the other operand - are the SAME container object.
+# Implementation-only, metamorphic oracle: the call on the aliased operand has to leave exactly what the same call leaves
+# when that operand is a separate, equal container (the literal evaluated a second time): same result, same final
+# content of the container, same diagnostics; and neither call may kill the process.  An operator that reads its
+# argument array through a reference while it grows / shrinks the very same array reads freed or shifted storage;
+# with a copy on the other side it cannot.
+# Exclusions (the documented behaviour depends on identity there), stated once:
+#   * the aliased call reports ArrayRecursion (1:60018): the container would become an element of itself, which the
+#     recursion test refuses, while a copy may be inserted;
+#     (pushBack / pushBackUnique / set / hashmap set with the container itself as the value all report it);
+#   * the iteration scripts (forEach / apply / select / count / findIf over an array their body resizes, sorts or
+#     cuts through an alias) have no copy-equivalent: they only have to come back.
+ALIAS_RULE = ("Aliased-operand family (implementation-only, metamorphic): every registered binary signature over ARRAY / HASHMAP / ANY operands "
+              "(ANY,ANY only for isEqualTo / isNotEqualTo / isEqualType) is called as `_a op _a`, `_p = _a; _a op _p`, `{ _x op _x } forEach [_a]`, "
+              "`_a op [.., _a, ..]` and `[.., _a, ..] op _a` over argument arrays that are valid parameter arrays of the indexing operators with "
+              "indices beyond the current size (growth: the vector reallocates), inside it, 0, negative; vectors, matrices, nested arrays, hashmaps. "
+              "Oracle: result, final `str` of the container and diagnostics equal those of the same call with the literal evaluated a second time "
+              "in place of the alias; no crash / exception / hang. The family runs with GLIBC_TUNABLES=glibc.malloc.tcache_count=0:glibc.malloc.perturb=165 (glibc overwrites freed blocks), so a read "
+              "through a dangling reference yields garbage also without the sanitizer build. Excluded from the comparison (still run): calls that report ArrayRecursion, "
+              "and the operators that would store the container inside itself without a diagnostic (pushBackUnique of itself). Iteration over an "
+              "array the body resizes / sorts / cuts through an alias: must come back, nothing compared. ")
+ALIAS_ARRAYS = ['[3,"x"]', "[2,7]", '[17,"y"]', "[0,1]", "[1,0]", "[1,5]", "[0,5]", "[-1,2]", "[5,[1,2]]", "[1,2,3]", "[]", "[0]", '["_q","_w"]',
+                "[[0,1],[2,3]]", "[2,[2,[2]]]", "[7,7,7,7,7,7,7,7,7]", "[2,2]", '[40,"z"]', "[[1,2],[3,4]]"]
+ALIAS_HASHMAPS = ["createHashMap", '(createHashMapFromArray [[1,2],["a",[3]]])', "(createHashMapFromArray [[0,1],[1,0]])"]
+ALIAS_ANYANY = {"isequalto", "isnotequalto", "isequaltype"}
+ALIAS_SHOW = '[if (isNil "_r") then {"<nil>"} else {str _r}, str _a]'
+ALIAS_ITERATIONS = [
+    "_a = [1,2,3,4,5]; { _a resize 1 } forEach _a; _a", "_a = [1,2,3,4,5]; { _a deleteRange [0,3] } forEach _a; _a",
+    "_a = [5,4,3,2,1]; { _a sort true } forEach _a; _a", "_a = [1,2,3,4,5]; _r = _a apply { _a resize 2; _x }; [_r, _a]",
+    "_a = [1,2,3,4,5]; _r = _a select { _a deleteAt 0; true }; [_r, _a]", "_a = [1,2,3,4,5]; _r = _a findIf { _a resize 0; false }; [_r, _a]",
+    "_a = [1,2,3,4,5]; _r = { _a deleteRange [1,9]; true } count _a; [_r, _a]", "_a = [1,2,3]; { if (count _a < 40) then { _a pushBack _forEachIndex } } forEach _a; count _a",
+    "_a = [1,2,3]; { if (count _a < 40) then { _a append _a } } forEach _a; count _a", "_a = [3,2,1]; { _a set [count _a + 20, _x] } forEach +_a; count _a",
+    "_a = [[2,1],[1,2]]; { _x sort true; _a sort false } forEach _a; _a", "_a = [1,2,3]; _a resize 100; _a resize 0; _a pushBack _a; _a",
+]
+
+
+class ACase:
+    def __init__(self, op, form, alias, copy):
+        self.op, self.form, self.alias, self.copy = op, form, alias, copy
+
+    def to_json(self):
+        return {"alias": True, "op": self.op, "form": self.form, "sqf": self.alias, "sqf_copy": self.copy}
+
+    @staticmethod
+    def from_json(j):
+        return ACase(j["op"], j["form"], j["sqf"], j.get("sqf_copy"))
+
+
+def alias_cases(rng, registry, thorough):
+    nu, un, bi = registry
+    out = []
+    ok = lambda t, ty: ty in (t, "ANY")
+    sigs = sorted(set((n, l, r) for n, l, r in bi if n not in SWEEP_EXCLUDED and l in ("ARRAY", "HASHMAP", "ANY") and r in ("ARRAY", "HASHMAP", "ANY")
+                      and ((l, r) != ("ANY", "ANY") or n in ALIAS_ANYANY)))
+    for n, l, r in sigs:
+        for t, lits in (("ARRAY", ALIAS_ARRAYS), ("HASHMAP", ALIAS_HASHMAPS)):
+            if ok(t, l) and ok(t, r):
+                for i, lit in enumerate(lits):
+                    pre = "_a = %s; " % lit
+                    out.append(ACase(n, "self", pre + "_r = _a %s _a; %s" % (n, ALIAS_SHOW), pre + "_b = %s; _r = _a %s _b; %s" % (lit, n, ALIAS_SHOW)))
+                    if thorough or i % 3 == 0:
+                        out.append(ACase(n, "alias-variable", pre + "_p = _a; _r = _a %s _p; %s" % (n, ALIAS_SHOW),
+                                         pre + "_p = %s; _r = _a %s _p; %s" % (lit, n, ALIAS_SHOW)))
+                        body = '_r = "unset"; { _t = _x %s %s; _r = if (isNil "_t") then {"<nil>"} else {str _t} } forEach [_a]; [_r, str _a]'
+                        out.append(ACase(n, "forEach", pre + body % (n, "_x"), pre + "_y = %s; " % lit + body % (n, "_y")))
+            # the container as an element of the other operand
+            elems = ["[%s]", "[0,%s]", "[5,%s]", "[%s,0]", "[%s,%s]", "[[%s]]", "[17,%s]"]
+            if ok(t, l) and r in ("ARRAY", "ANY"):
+                for i, lit in enumerate(lits):
+                    for j, e in enumerate(elems):
+                        if thorough or (i + j) % 4 == 0:
+                            pre = "_a = %s; " % lit
+                            out.append(ACase(n, "element-right", pre + "_r = _a %s %s; %s" % (n, e.replace("%s", "_a"), ALIAS_SHOW),
+                                             pre + "_b = %s; _r = _a %s %s; %s" % (lit, n, e.replace("%s", "_b"), ALIAS_SHOW)))
+            if ok(t, r) and l in ("ARRAY", "ANY"):
+                for i, lit in enumerate(lits):
+                    for j, e in enumerate(elems):
+                        if thorough or (i + j) % 7 == 0:
+                            pre = "_a = %s; " % lit
+                            out.append(ACase(n, "element-left", pre + "_r = %s %s _a; %s" % (e.replace("%s", "_a"), n, ALIAS_SHOW),
+                                             pre + "_b = %s; _r = %s %s _a; %s" % (lit, e.replace("%s", "_b"), n, ALIAS_SHOW)))
+    for s in ALIAS_ITERATIONS:
+        out.append(ACase("iteration", "iteration", s, None))
+    return out, sigs
+
+
+def run_alias(run, himpl, acases):
+    """-> kinds, statistics; reports per operator the shortest failing script"""
+    lines = []
+    for c in acases:
+        lines.append("X\t-\t%s\t4000" % V.hx(c.alias))
+        if c.copy is not None:
+            lines.append("X\t-\t%s\t4000" % V.hx(c.copy))
+    # glibc fills every freed block with a byte pattern (tunable glibc.malloc.perturb; the thread cache is switched off because blocks
+    # parked there are not overwritten): a value read through a reference into storage the
+    # operator has just released (a vector that reallocated) is garbage instead of the stale, still plausible bytes - the
+    # quick tier sees a use-after-free without the sanitizer build
+    _, impl, _ = V.run_lines_parallel([himpl], lines, timeout=6000, env=dict(os.environ, GLIBC_TUNABLES="glibc.malloc.tcache_count=0:glibc.malloc.perturb=165"))
+    kinds, bad, excluded, k = {}, {}, {"array-recursion": 0}, 0
+    died = lambda il: il.split("\t")[0].split(";")[0].split(" ")[0] in CRASHY or il.startswith("HARNESS")
+    for c in acases:
+        a = impl[k]; k += 1
+        b = None
+        if c.copy is not None:
+            b = impl[k]; k += 1
+        kd = "alias-" + c.form
+        kinds[kd] = kinds.get(kd, 0) + 1
+        for which, il, sqf in (("aliased", a, c.alias), ("copy", b, c.copy)):
+            if il is not None and (died(il) or "0:60002" in il):
+                bad.setdefault(c.op, []).append((len(sqf), c, "the call on the %s operand killed the process, let an exception escape or did not come back: %s"
+                                                 % (which, il.replace("\t", " ")[:200]), a, b, True))
+                break
+        else:
+            if b is None or a == b:
+                continue
+            if "1:60018" in a.split(";")[1].split(","):
+                excluded["array-recursion"] += 1
+                continue
+            show = lambda il: il.split(";")[0] + ";" + il.split(";")[1] + ";" + (V.unhx(il.split(";")[2]).decode("latin-1") if il.count(";") == 2 and il.split(";")[2] != "NONE" else "NONE")
+            bad.setdefault(c.op, []).append((len(c.alias), c, "an operand that is the same container as the other operand (or an element of it) changes what the "
+                                             "operator does: aliased %s, with an equal separate container %s (the operator reads its argument while it changes "
+                                             "the container: storage that was freed or moved)" % (show(a)[:160], show(b)[:160]), a, b, True))
+    for op in sorted(bad):
+        for _, c, what, a, b, concrete in sorted(bad[op], key=lambda x: x[0])[:2]:
+            rep = c.to_json()
+            rep.update({"impl_out": a, "impl_out_copy": b, "cases_of_this_operator_failing": len(bad[op])})
+            run.violation(what, rep, found_input=concrete)
+    return kinds, {"cases": len(acases), "compared_pairs": sum(1 for c in acases if c.copy is not None), "excluded_from_comparison": excluded,
+                   "failing": {op: len(v) for op, v in bad.items()}}
+
+
 # ------------------------------------------------------------------------------------------------ main
 def asan_fc_flavour():
     """ASan + UBSan + float-cast-overflow (GCC's -fsanitize=undefined leaves the float -> int check out)"""
@@ -1211,7 +1547,7 @@ def main(replay=None):
     registry = registry_full.read_registry()
     flags = "".join("1" if run.known.has(PID, k) else "0" for k in SWITCHES)
 
-    cases, corpus_sweep, ncases = [], [], []
+    cases, corpus_sweep, ncases, acases, alias_sigs, corpus_alias = [], [], [], [], [], []
     if replay:
         j = json.load(open(replay))["replay"]
         if j.get("sweep"):
@@ -1219,6 +1555,9 @@ def main(replay=None):
             sweep = [tuple(j["sweep"])]
         elif j.get("numarr"):
             ncases = [NCase.from_json(j)]
+            sweep = []
+        elif j.get("alias"):
+            acases = [ACase.from_json(j)]
             sweep = []
         else:
             cases.append(Case.from_json(j))
@@ -1231,15 +1570,22 @@ def main(replay=None):
                 if j.get("sweep"):
                     corpus_sweep.append(tuple(j["sweep"]))
                     continue
+                if j.get("alias"):
+                    corpus_alias.append(ACase.from_json(j))
+                    continue
                 c = Case.from_json(j)
                 c.kind = "corpus:" + fn
                 cases.append(c)
         cases += gen_cases(rng, thorough)
+        import random as _random
+        cases += gen_cases2(_random.Random("guards2-%d" % run.seed), thorough)     # its own generator state, as for the numeric structures
         sweep = None
         # its own generator state: the pools drawn above and the sweep below stay what they were for a given seed
         import random
         for rnd in range(4 if thorough else 1):
             ncases += numarr_cases(random.Random("numarr-%d-%d" % (run.seed, rnd)))
+        acases, alias_sigs = alias_cases(random.Random("alias-%d" % run.seed), registry, thorough)
+        acases = corpus_alias + acases
 
     # ---- modelled operators: implementation and model on the same arguments
     ilines = [c.impl_line() for c in cases]
@@ -1285,6 +1631,14 @@ def main(replay=None):
         na_kinds, na_stats = run_numarr(run, himpl, ncases)
         kinds.update(na_kinds)
         distinct.update((c.sqf(), "", None) for c in ncases)
+
+    # ---- aliased operands: implementation-only, metamorphic
+    al_stats = {}
+    if acases:
+        al_kinds, al_stats = run_alias(run, himpl, acases)
+        al_stats["signatures"] = ["%s(%s,%s)" % x for x in alias_sigs]
+        kinds.update(al_kinds)
+        distinct.update((c.alias, "", None) for c in acases)
 
     # ---- registry-wide sweep: exploration, not proof
     sw_stats = {}
@@ -1342,19 +1696,24 @@ def main(replay=None):
 
     for p in problems:
         run.violation("proof obligation not discharged: " + p, {"broken": p, "theorems": run.cov["theorems"]}, found_input=False)
-    run.cov["evaluations"] = len(cases) + len(ncases)
+    run.cov["evaluations"] = len(cases) + len(ncases) + len(acases)
     run.cov["distinct_nontrivial"] = len(distinct)
     run.cov["rule"] = ("modelled operators only (select x4, resize, deleteRange, deleteAt, set, pushBack, pushBackUnique, append, sort, param, params, "
                        "format, toArray, toString, splitString, selectMax, selectMin, selectRandom, toFixed x2, configClasses, configProperties, "
-                       "fromAssembly__, BOM sniff of read_file_from_disk): boundary pools (empty / 1 / 2 / 3 / 5 / 200 element arrays, wrong inner types "
+                       "fromAssembly__, BOM sniff of read_file_from_disk; second list (Ops/Guards2.v): matrixTranspose, matrixMultiply, the eleven vector operators, IF then ARRAY, "
+                       "private ARRAY, NAMESPACE getVariable / setVariable ARRAY, setMarkerPos(Local), setMarkerSize(Local), createMarker, CONFIG select SCALAR, "
+                       "STRING callExtension ARRAY up to the library load - matrices of every shape up to 5 x 4 and 1 x 40 with one cell / row replaced, shortened, "
+                       "lengthened or dropped, vectors of 0-4 elements with every kind of non-number, all pairs of seven element kinds for IF then ARRAY, markers "
+                       "that exist / do not exist, classes with deleted and re-declared entries, argument arrays of 2048 / 2049 entries): boundary pools (empty / 1 / 2 / 3 / 5 / 200 element arrays, wrong inner types "
                        "and arity, -2147483904 .. 1e30, halves, +-inf, NaN, empty strings, null handles); every case runs in a forked child of the "
                        "harness and is compared with the extracted guard model on result class, diagnostics (level:code) and the printed value; "
-                       "evaluations = cases of modelled operators + cases of the numeric-structure family; a case is trivial when it is an in-range select; distinct by script text / file bytes. "
+                       "evaluations = cases of modelled operators + cases of the numeric-structure family + cases of the aliased-operand family; a case is trivial when it is an in-range select; distinct by script text / file bytes. "
                        "sort also runs on rows whose nested arrays (depth 2 and 3) differ in length, element type or depth, in both row orders and both directions; "
                        "a negative-index / negative-size diagnostic for arguments without a negative number or NaN is a concrete violation (float -> int conversion left the range of int). "
-                       + NUMARR_RULE +
+                       + NUMARR_RULE + ALIAS_RULE +
                        "The registry sweep is reported separately under 'sweep_exploration' and is NOT part of the proof.")
     run.cov["numeric_structure_family"] = na_stats
+    run.cov["aliased_operand_family"] = al_stats
     run.cov["input_distribution"] = kinds
     run.cov["samples"] = samples
     run.cov["disagreements_checked"] = ndis
@@ -1364,7 +1723,11 @@ def main(replay=None):
     run.cov["guard_models"] = ["select(ARRAY,SCALAR)", "select(ARRAY,BOOL)", "select(ARRAY,ARRAY)", "select(STRING,ARRAY)", "resize", "deleteRange", "deleteAt",
                                "set", "pushBack", "pushBackUnique", "append", "sort", "param", "params", "format", "toArray", "toString", "splitString",
                                "selectMax", "selectMin", "selectRandom", "toFixed(SCALAR)", "toFixed(SCALAR,SCALAR)", "configClasses/configProperties iterator",
-                               "fromAssembly__ decode (split, from_sqf, makeArray, callBinary)", "d_array::check_type x2", "get_bom_skip"]
+                               "fromAssembly__ decode (split, from_sqf, makeArray, callBinary)", "d_array::check_type x2", "get_bom_skip",
+                               "is_matrix", "matrixTranspose", "matrixMultiply", "vectorAdd / vectorDiff / vectorCrossProduct / vectorMultiply / vectorNormalized (at)",
+                               "vectorCos / vectorDistance / vectorDistanceSqr / vectorDotProduct / vectorMagnitude / vectorMagnitudeSqr (vec3 conversion)",
+                               "then(IF,ARRAY)", "private(ARRAY)", "getVariable(NAMESPACE,ARRAY)", "setVariable(NAMESPACE,ARRAY)", "setMarkerPos(Local)",
+                               "setMarkerSize(Local)", "createMarker", "select(CONFIG,SCALAR)", "callExtension(STRING,ARRAY) argument validation"]
     run.cov["trusted_base"] = ["Coq 8.16.1 kernel (vm_compute in the finite-table facts, the witnesses and the Examples)",
                                "ExtrOcamlBasic extraction + ocaml/ops_driver.ml (value parser, printing)",
                                "harness/h_ops.cpp + sqfrt.hpp + fork / rlimit / watchdog plumbing; sanitizers in the thorough tier",
